@@ -313,6 +313,7 @@ PROPS["C07"] = {
     "assumptions": ["mock DynAccessControl counting calls"],
     "harnesses": [
         H(_H, "c07_guard_notifies_exactly_once_on_drop", "a guard notifies the policy exactly once (same endpoint + connection id) when dropped, not before, also after moves; an empty guard notifies nobody", "any endpoint key"),
+        H(_H, "c07_guard_notifies_when_sole_owner_of_policy", "the disconnect is reported exactly once even when the guard is the only remaining holder of the access policy", "any endpoint key", timeout=900),
         H(_H, "c07_connection_ids_fresh", "connection ids are distinct and increasing", "3 consecutive ids"),
     ],
 }
